@@ -396,7 +396,8 @@ def is_valid(sig, call):
 
 AV_POOL = [1, {'f': 1}, {'b': 1}, 2, None, 'a', {'t': [1]}, {'l': [1]}, {'t': []}, {'l': []}, {'d': []}, {'d': [['x', 1]]}, {'t': [{'t': ['x', 1]}]},
            {'l': [{'t': ['x', 1]}]}, {'d': [['x', {'l': [1]}]]}, {'d': [['x', {'t': [1]}]]}, {'l': [{'l': [1]}]}, {'t': [{'l': [1]}]}, {'l': [{'t': [1]}]},
-           {'t': [1, 2]}, {'l': [1, 2]}, {'l': [{'f': 1}]}, {'d': [['x', 1], ['y', 2]]}, {'d': [['y', 2], ['x', 1]]}, 0, {'b': 0}, '']
+           {'t': [1, 2]}, {'l': [1, 2]}, {'l': [{'f': 1}]}, {'d': [['x', 1], ['y', 2]]}, {'d': [['y', 2], ['x', 1]]}, 0, {'b': 0}, '',
+           -1, -2, 2 ** 61 - 1, {'t': [-1]}, {'t': [-2]}]
 
 RET_POOL = [None, 0, '', {'l': []}, {'b': 0}, {'nan': 1}, {'t': []}, {'d': []}, {'f': 0}, 1, 'x', {'l': [None]}]
 
@@ -480,6 +481,14 @@ def gen_cases(rng, tier):
         calls = [{'args': [rng.randrange(12)] + ([{'l': [rng.randrange(3)]}] if rng.random() < 0.3 else []),
                   'kw': ([['k', rng.choice([1, {'f': 1}, None, {'t': [1]}, {'l': [1]}])]] if rng.random() < 0.3 else [])} for _ in range(m)]
         cases.append({'kind': 'cache', 'calls': calls})
+    # arguments whose CPython hashes coincide (hash(-1) == hash(-2), hash(0) == hash(2**61 - 1), hash(1) == hash(2**61)) are distinct combinations
+    M61 = 2 ** 61 - 1
+    for x, y in ((-1, -2), (0, M61), (1, 2 ** 61), (-M61 - 1, -1), (M61 + 3, 3)):
+        for wrap in (lambda v: {'args': [v], 'kw': []}, lambda v: {'args': [3, v], 'kw': []}, lambda v: {'args': [{'t': [v]}], 'kw': []},
+                     lambda v: {'args': [{'t': [3, v]}], 'kw': []}, lambda v: {'args': [{'l': [v, 3]}], 'kw': []}, lambda v: {'args': [], 'kw': [['k', v]]},
+                     lambda v: {'args': [1], 'kw': [['k', {'t': [v]}]]}, lambda v: {'args': [{'d': [['x', v]]}], 'kw': []}):
+            cases.append({'kind': 'cache', 'calls': [wrap(x), wrap(y), wrap(x), wrap(y)]})
+            cases.append({'kind': 'cache', 'calls': [wrap(y), wrap(x)]})
     for r0 in RET_POOL:                 # f returns r0 once, the same call repeated three times
         for c0 in ({'args': [], 'kw': []}, {'args': [1], 'kw': []}, {'args': [{'l': [1]}], 'kw': [['k', None]]}):
             cases.append({'kind': 'cache', 'calls': [c0, c0, c0], 'rets': [r0, 5, 6]})
